@@ -26,14 +26,16 @@ def short(viol):
 
 
 rows = []
-for d in sorted(glob.glob(os.path.join(V, 'seeded', 'C*_[12]'))):
+for d in sorted(glob.glob(os.path.join(V, 'seeded', 'C*_[12]'))) + sorted(glob.glob(os.path.join(V, 'seeded', 'b2_C*_[12]'))):
     m = os.path.basename(d)
     rf = os.path.join(rd, m + '.json')
     if not os.path.exists(rf):
         continue
     res = json.load(open(rf))
     viol, und, why = summarise(res)
-    prop = m.split('_')[0]
+    prop = m.replace('b2_', '').split('_')[0]
+    if os.path.exists(os.path.join(d, 'confirm.json')):
+        confirm[m] = json.load(open(os.path.join(d, 'confirm.json')))
     notes = open(os.path.join(d, 'notes.md')).read() if os.path.exists(os.path.join(d, 'notes.md')) else ''
     meta = {'id': m, 'breaks_property': prop, 'source': 'independent sub-agent given only the property text and a scratch worktree',
             'needs_to_manifest': notes[:1500],
@@ -75,9 +77,9 @@ for f in sorted(glob.glob(os.path.join(V, 'seeded', 'harmless', '*.diff'))):
     what = open(f[:-5] + '.txt').read().strip().split('\n')[0][:110] if os.path.exists(f[:-5] + '.txt') else ''
     print('| %s | %s | %s | %s |' % (m, what.replace('|', '/'), short(viol) or 'none', (' '.join(und) + (' (' + why[0][:90].replace('|', '/') + ')' if why else '')) or '-'))
 json.dump(hres, open(os.path.join(V, 'seeded', 'harmless', 'results.json'), 'w'), indent=1)
-n = [r for r in rows if r[0].startswith('C')]
+n = [r for r in rows if not r[0].startswith('orig')]
 print()
 print('sub-agent changes: %d, reported: %d, by the target property: %d; original defects re-introduced: %d, reported: %d; harmless: %d, false alarms: %d, fully decided: %d'
       % (len(n), len([r for r in n if r[2]]), len([r for r in n if r[1] in r[2]]),
-         len(rows) - len(n), len([r for r in rows if not r[0].startswith('C') and r[2]]),
+         len(rows) - len(n), len([r for r in rows if r[0].startswith('orig') and r[2]]),
          len(hres), len([h for h in hres.values() if h['violations_reported']]), len([h for h in hres.values() if not h['undecided'] and not h['violations_reported']])))
